@@ -80,6 +80,12 @@ def project_files():
     return out
 
 
+def strip_strings_and_comments(text):
+    """string literals first (the pinned source text holds `(*args` and the word Parameter), then comments"""
+    text = re.sub(r'"(?:[^"]|"")*"', '""', text)
+    return re.sub(r"\(\*.*?\*\)", "", text, flags=re.S)
+
+
 def scan_forbidden():
     hits = []
     for f in project_files():
@@ -91,7 +97,7 @@ def scan_forbidden():
         text = open(path).read()
         # Section variables / hypotheses are allowed only inside sections: checked by looking at
         # whether the file has a matching "Section".  Comments are stripped first.
-        stripped = re.sub(r"\(\*.*?\*\)", "", text, flags=re.S)
+        stripped = strip_strings_and_comments(text)
         for m in FORBIDDEN.finditer(stripped):
             tok = m.group(0)
             if tok in ("Variable", "Variables", "Hypothesis"):
@@ -175,7 +181,7 @@ def count_obligations(files):
         path = os.path.join(COQ, f)
         if not os.path.exists(path):
             continue
-        text = re.sub(r"\(\*.*?\*\)", "", open(path).read(), flags=re.S)
+        text = strip_strings_and_comments(open(path).read())
         for m in re.finditer(r"^\s*(Theorem|Lemma|Example|Corollary|Fact|Remark|Proposition)\s+(\w+)", text, flags=re.M):
             n += 1
             names.append("%s:%s" % (f, m.group(2)))
@@ -422,8 +428,17 @@ TRUSTED_BASE = [
 ]
 
 
+# the pinned source text (Proofs/SrcPin*.v) behind the hand-written models each property's theorems speak about
+_RT, _EL, _EX, _GL = "Proofs/SrcPinCheckers.v", "Proofs/SrcPinElab.v", "Proofs/SrcPinExpr.v", "Proofs/SrcPinGlobals.v"
+SRC_PINS = {"C01": [_RT, _EL], "C02": [_RT, _EL], "C03": [_RT, _EL], "C04": [_RT, _EL], "C05": [_RT, _EL],
+            "C06": [_EX], "C07": [_EX, _RT], "C08": [_RT, _EL], "C09": [_RT, _EL], "C10": [_RT], "C11": [_RT],
+            "C12": [_RT], "C13": [_RT, _EL], "C14": [_RT, _EL], "C15": [_RT, _EL, _GL], "C16": [_RT, _EL],
+            "C17": [_RT, _EL], "C18": [_RT, _EL], "C19": [_RT, _EL], "C20": [_EX, _GL]}
+
+
 def proof_section(out, build, cone_files, props_file):
     """Fill the proof-level coverage keys; report broken obligations. Returns True if all discharged."""
+    cone_files = list(cone_files) + [f for f in SRC_PINS.get(out.prop, []) if f not in cone_files]
     n, names = count_obligations(cone_files)
     ok = build.translator_ok and build.ok_for(cone_files) and not build.forbidden
     assum_ok, assum, raw = (False, {}, "")
